@@ -108,7 +108,8 @@ def gen_groups(r, n):
             g.add_fd(r, 2.0 ** -6)
         elif kind == "UV":
             g = Group("UV", "", unit(r, 3), unit(r, 3), manifold=True)
-            g.add_fd(r, 1e-4)
+            if sum(a * b for a, b in zip(g.x1, g.x2)) > -0.98:      # near the antipode the third derivative makes the central difference too coarse
+                g.add_fd(r, 1e-4)
         elif kind == "Q":
             q1, q2 = unit(r, 4), unit(r, 4)
             g = Group("Q", "", q1, q2, manifold=True)
@@ -217,6 +218,8 @@ class CGroup:
             self.oncut = abs(d - round(d)) >= 0.49
         else:
             self.oncut = False
+        if self.cls == "unit":
+            self.oncut = sum(a * b for a, b in zip(x1, x2)) <= -0.98
         if self.cls == "quat":
             self.inv.append(len(self.lines)); self.lines.append(self.cd(x1, [-a for a in x2]))
             cc = sum(a * b for a, b in zip(x1, x2))
@@ -307,12 +310,12 @@ class TGroup:
             sh = [0.0, 0.0, 0.0] if ortho else [V.dyadic(r, -0.5, 0.5, bits=3) * L[0], V.dyadic(r, -0.5, 0.5, bits=3) * L[0], V.dyadic(r, -0.5, 0.5, bits=3) * L[1]]
             self.a = [L[0], 0.0, 0.0]; self.b = [sh[0], L[1], 0.0]; self.c = [sh[1], sh[2], L[2]]
             self.x1 = [V.dyadic(r, -20, 20) for _ in range(3)]; self.x2 = [V.dyadic(r, -20, 20) for _ in range(3)]
-            if min(abs(f - math.floor(f) - 0.5) for f in self.frac([q - p for p, q in zip(self.x1, self.x2)])) > 1e-3:
-                break       # off the cut (boundary-ambiguous cases are not generated; the exact cut is a recorded limitation)
+            if min(abs(f - math.floor(f) - 0.5) for f in self.frac([q - p for p, q in zip(self.x1, self.x2)])) > 1e-2:
+                break       # well off the cut, also for the finite-difference neighbours (boundary-ambiguous cases are not generated; the exact cut is a recorded limitation)
         n = [r.randint(-2, 2) for _ in range(3)]
         img = [q + n[0] * ai + n[1] * bi + n[2] * ci for q, ai, bi, ci in zip(self.x2, self.a, self.b, self.c)]
         self.lines = [self.ln(self.x1, self.x2), self.ln(self.x2, self.x1), self.ln(self.x1, self.x1), self.ln(self.x1, img)]
-        h = 2.0 ** -8
+        h = 2.0 ** -10
         self.fd = []
         for which in (1, 2):
             e = [float(r.randint(-2, 2)) for _ in range(3)]
@@ -586,13 +589,15 @@ def check(run):
                        "periodic distanceZ and distanceVec with/without forceNoPBC and cell): base, swapped, identical arguments, +/-h along a (tangent) direction, "
                        "period/sign/lattice images; ~30% of periodic cases exactly on the half-period cut; component groups on real single-component variables of 17 kinds "
                        "(distance, dihedral, spinAngle, eulerPhi/Psi/Theta, polarPhi/Theta, tilt, orientationAngle, distanceDir, orientation, cartesian, distancePairs, a periodic scripted "
-                       "variable, a coefficient-2 dihedral, a sum of two dihedrals; 6 wrapping centres): dist2/lgrad/rgrad base, swapped, identical, period image, wrapped arguments, sign flip, "
+                       "variable, a coefficient-2 dihedral, a sum and a difference of two dihedrals, sums of components with different periodicities (60% of them a whole number of one component's periods apart), "
+                       "linearCombination with scalar / 3-vector value, gspathCV/gzpathCV/aspathCV/azpathCV; 6 wrapping centres): dist2/lgrad/rgrad base, swapped, identical, period image, wrapped arguments, sign flip, "
                        "colvar::wrap (30% on the interval edge), +/-h in each argument; OPES kernel-merge groups (base + period image of either centre, 30% across the wrap boundary); "
                        "wrap, interpolate (all types incl. quaternions: 20% opposite, 10% identical end points; 15% antipodal unit vectors), apply_constraints, inner/norm2, moving-restraint centres, "
+                       "distanceVec in triclinic cells (base, swapped, identical, lattice image, +/-h in each argument; never on the cut), pairs of unit vectors from the pool with opposites and one-ulp neighbours, "
                        "and histories on one periodic variable object (modifycvcs changes of period/wrapAround interleaved with colvar::wrap, colvar::dist2 and wrap-then-dist2 calls). "
                        "distinct = distinct base line; non-trivial = arguments differ")
     run.assumptions += ["theorems are about the R instance of the model; the tie runs the float instance and compares with relative tolerance 1e-9 (acos, sqrt) and exactly for dyadic cases",
-                        "the model is of the code after the fix: commits of C18 (fix-C18: dist2_rgrad, wrap of spinAngle/eulerPhi/eulerPsi, periodic scripted distance, q/-q interpolation NaN)",
+                        "the model is of the code after the fix: commits of C18 (fix-C18-3: metric of sums of components with different periodicities; fix-C18: dist2_rgrad, wrap of spinAngle/eulerPhi/eulerPsi, periodic scripted distance, q/-q interpolation NaN)",
                         "NaN is outside the real-number model: the 0/0 of interpolating q and -q at 1/2 is seen by the oracle and the float tie only"]
     groups = gen_groups(r, 700 if quick else 20000)
     misc = gen_misc(r, 300 if quick else 8000)
